@@ -4,3 +4,4 @@ import LadimModel.IBM.Chemicals
 import LadimModel.IBM.Sedimentation
 import LadimModel.IBM.Bio
 import LadimModel.IBM.Memory
+import LadimModel.IBM.Grain
